@@ -72,7 +72,8 @@ func normHost(h string) string {
 // domain has exactly one writer task, so each domain is a single-writer register: a Match on one of
 // its hosts must report a state the domain had at some instant of the call, and once all tasks are
 // done the matcher must agree with the last write to each domain.
-var c14ConcDomains = []string{"a.example.com", "b.example.com", "api.x.org", "c.example.com", "{sub}.c.com", "{n:\\d+}.g.com", "d.example.com", "{w}.h.org"}
+var c14ConcDomains = []string{"a.example.com", "b.example.com", "api.x.org", "c.example.com", "{sub}.c.com", "{n:\\d+}.g.com", "d.example.com", "{w}.h.org",
+	"a.example.com.cn", "d.example.com.cn"} // continue another domain's node: Delete of the shorter one prunes next to the longer one
 
 func c14ConcHost(r *Rng, d string) (string, map[string]string) {
 	p, _ := ParsePattern(d, nil)
@@ -804,6 +805,7 @@ func decodeSpec(s string) *MSpec {
 }
 
 type c13Group struct {
+	override mux.Matcher // twin only: used instead of the router's own matcher
 	routers map[string]*mux.Router[*Comp]
 	env   *Env
 	g     *mux.Group[*Comp]
@@ -813,10 +815,18 @@ type c13Group struct {
 	dupAccepted []string
 }
 
+type c13RefTwin struct {
+	cg *c13Group
+	ok bool
+	st refState
+}
+
 // buildC13 replays the administrative history; only != "" keeps just that router (the stand-alone twin).
-func buildC13(w *World, upto int, only string) *c13Group {
+func buildC13(w *World, upto int, only string) *c13Group { return buildC13With(w, upto, only, nil) }
+
+func buildC13With(w *World, upto int, only string, override mux.Matcher) *c13Group {
 	env := NewEnv()
-	cg := &c13Group{env: env, specs: map[string]*MSpec{}, routers: map[string]*mux.Router[*Comp]{}}
+	cg := &c13Group{env: env, specs: map[string]*MSpec{}, routers: map[string]*mux.Router[*Comp]{}, override: override}
 	cg.g = mux.NewGroup[*Comp](env.Call, env.Group404(idG404), env.NotAllowedBuilder(id405), env.OptionsBuilder(idOptions))
 	for i := 0; i < upto && i < len(w.Ops); i++ {
 		cg.apply(&w.Ops[i], only)
@@ -850,15 +860,19 @@ func (cg *c13Group) apply(op *Op, only string) {
 				return
 			}
 			var r *mux.Router[*Comp]
+			matcher := buildMatcher(spec)
+			if cg.override != nil {
+				matcher = cg.override
+			}
 			if op.K == "gnew" {
 				var extra []mux.Option
 				if len(op.Args) > 1 && op.Args[1] == "trace" {
 					extra = append(extra, mux.WithTrace(env.TraceH(idTrace)))
 				}
-				r = cg.g.New(op.Name, buildMatcher(spec), extra...)
+				r = cg.g.New(op.Name, matcher, extra...)
 			} else {
 				r = NewSimRouter(env, RouterOpts{Name: op.Name})
-				cg.g.Add(buildMatcher(spec), r)
+				cg.g.Add(matcher, r)
 			}
 			routers[op.Name] = r
 			cg.specs[op.Name] = spec
@@ -1007,6 +1021,7 @@ func execC13(w *World, st *Stats) (*Violation, RunInfo) {
 		seen[r.Name()] = true
 	}
 	twins := map[string]*c13Group{}
+	refTwins := map[string]*c13RefTwin{}
 	probed := false
 	for i := nAdmin; i < len(w.Ops); i++ {
 		op := &w.Ops[i]
@@ -1015,6 +1030,7 @@ func execC13(w *World, st *Stats) (*Violation, RunInfo) {
 			// remembers from the requests served so far is still there
 			cg.apply(op, "")
 			twins = map[string]*c13Group{}
+			refTwins = map[string]*c13RefTwin{}
 			st.C("c13_late_admin")
 			if len(cg.dupAccepted) > 0 {
 				return &Violation{Prop: "C13", Oracle: "unique-names", Sig: "duplicate-name-accepted", Detail: fmt.Sprintf("Group.Add/New accepted a second router named %v", cg.dupAccepted)}, info
@@ -1098,6 +1114,37 @@ func execC13(w *World, st *Stats) (*Violation, RunInfo) {
 			twins[winner] = tw
 		}
 		want := Serve(tw.g, *op.Req, nil, nil)
+		// second twin: the same router behind a matcher that merely replays what the reference semantics
+		// say the real matcher produces (path and parameters) - whatever else a matcher leaves behind in
+		// the context on its way (scratch values of members that rejected) must not reach the router
+		rt := refTwins[winner]
+		if rt == nil {
+			rt = &c13RefTwin{}
+			box := rt
+			rt.cg = buildC13With(w, i, winner, mux.MatcherFunc(func(r *http.Request, ctx *types.Context) bool {
+				if !box.ok {
+					return false
+				}
+				r.URL.Path = box.st.path
+				ks := make([]string, 0, len(box.st.params))
+				for k := range box.st.params {
+					ks = append(ks, k)
+				}
+				sortStrings(ks)
+				for _, k := range ks {
+					ctx.Set(k, box.st.params[k])
+				}
+				return true
+			}))
+			refTwins[winner] = rt
+		}
+		rt.ok, rt.st = refEval(cg.specs[winner], *op.Req, refState{path: op.Req.Path, params: map[string]string{}})
+		if rt.ok {
+			wantRef := Serve(rt.cg.g, *op.Req, nil, nil)
+			if wantRef.Panic == "" && !wantRef.Zero && obsKey13(&got) != obsKey13(&wantRef) {
+				return mk("first-acceptor", "differs-from-reference-matcher", fmt.Sprintf("first acceptor is %s; behind a matcher that only replays the reference result (path %q, params %s) it answers %s; the group answered %s", winner, rt.st.path, fmtParams(rt.st.params), obsKey13(&wantRef), obsKey13(&got))), info
+			}
+		}
 		if got.Router != winner && got.Kind != KGroup404 {
 			// Route.RouterName is documented as the name of the router that serves the request
 			return mk("first-acceptor", "wrong-router", fmt.Sprintf("first acceptor is %s but the handler that ran saw router name %q (%s)", winner, got.Router, obsKey13(&got))), info
